@@ -148,15 +148,15 @@ Print Assumptions path_join_injective.
 (* "Its full name is unique", constructively (no duplicate check of the library is used): for any
    list of suites with pairwise distinct, well-formed names (one segment each, not a gRPC marker),
    whose test names are clean relative paths ("unary/success"; every segment well formed) and
-   distinct within their suite, and any admitted config cases with declared enum numbers, the full
-   name determines the suite, the config case (all ten fields) and the test case.  Independent of
-   the config-case set and of the run mode. *)
-Theorem full_name_injective : forall ss, NoDup (map s_name ss) -> Forall wf_suite ss ->
+   distinct within their suite, and whose relevant lists hold declared enum numbers (suite_declared),
+   the full name determines the suite, the config case (all ten fields) and the test case - for ANY
+   admitted config cases: nothing is asked of the config-case set or of the run mode. *)
+Theorem full_name_injective : forall ss, NoDup (map s_name ss) ->
+  Forall wf_suite ss -> Forall suite_declared ss ->
   forall s s' c c' t t', In s ss -> In s' ss -> In t (s_cases s) -> In t' (s_cases s') ->
-  admits s c -> admits s' c' -> case_declared c -> case_declared c' ->
-  t_stream t = c_stream c -> t_stream t' = c_stream c' ->
+  admits s c -> admits s' c' -> t_stream t = c_stream c -> t_stream t' = c_stream c' ->
   spec_name s c t = spec_name s' c' t' -> s = s' /\ c = c' /\ t = t'.
-Proof. exact full_name_injective_proof. Qed.
+Proof. exact full_name_injective_suites_proof. Qed.
 Print Assumptions full_name_injective.
 
 (* For ANY names (hostile ones included: "/" in a suite name, empty / "." / ".." segments that
@@ -186,12 +186,9 @@ Print Assumptions grpc_names_distinct.
 
 (* ... and every library built from well-formed suites is such a list *)
 Theorem library_grpc_names_distinct : forall ss cs mode L, new_library ss cs mode = Ok L ->
-  Forall wf_suite ss -> (forall c, In c cs -> case_declared c) ->
+  Forall wf_suite ss -> Forall suite_declared ss ->
   Forall name_wf L /\ forall cl sv, NoDup (map p_name (all_permutations cl sv L)).
-Proof.
-  intros ss cs mode L H W D. split;
-    [exact (library_names_wf_proof ss cs mode L H W D)|exact (library_grpc_names_distinct_proof ss cs mode L H W D)].
-Qed.
+Proof. exact library_grpc_names_distinct_suites_proof. Qed.
 Print Assumptions library_grpc_names_distinct.
 
 (* stable across runs, output ORDER.  The only place where the code sorts: serverInstancesSlice(lib,
@@ -287,6 +284,8 @@ Proof.
   - repeat constructor; apply name_segb_iff; vm_compute; reflexivity.
   - repeat constructor. simpl. tauto.
 Qed.
+Example ex_suite_declared : suite_declared ex_suite.
+Proof. repeat split; intros x H; vm_compute in H; vm_compute; tauto. Qed.
 Example ex_join_plain : path_join [[]; bs "Basic"; bs "TLS:false"; bs "unary/success"] = bs "Basic/TLS:false/unary/success".
 Proof. vm_compute. reflexivity. Qed.
 
